@@ -13,16 +13,16 @@ def cases(tier, seed):
         ([2, 2, 3], [3, 2, 2], [1, 2, 2, 1], [1, 1, 2, 1]),
     ]
     if th:
-        structs += [([4], [4], [1, 1], [1, 1]), ([3, 3], [2, 2], [1, 3, 1], [1, 3, 1]), ([2, 2, 2], [2, 2, 2], [1, 2, 1, 1], [1, 3, 2, 1]), ([2, 2, 2, 2], [2, 2, 2, 2], [1, 2, 2, 2, 1], [1, 1, 1, 1, 1])]
+        structs += [([4], [4], [1, 1], [1, 1]), ([3, 3], [2, 2], [1, 3, 1], [1, 3, 1]), ([2, 2, 2], [2, 2, 2], [1, 2, 1, 1], [1, 3, 2, 1]), ([2, 1, 2, 2], [2, 2, 1, 2], [1, 2, 1, 2, 1], [1, 1, 1, 1, 1])]
     for M, N, RA, Rx in structs:
         d = len(N)
-        nsw = [1, 2] if d <= 2 else [1]
-        if th and d <= 3:
-            nsw = [1, 2]
+        nsw = [1, 2] if d <= 2 else [1]          # (two sweeps of an order-3 product are tens of thousands of paths per case)
         for nswp in nsw:
             for op in ('fast_matvec', 'dmrg_hadamard', 'amen_mv', 'amen_mm'):
                 if op == 'amen_mm' and d >= 3 and not th:
                     continue            # (thorough tier: minutes per case)
+                if op in ('amen_mm', 'amen_mv') and d >= 4:
+                    continue
                 if op == 'amen_mm' and d == 2 and nswp == 2 and not th:
                     continue
                 s = {'op': op, 'M': M, 'N': N, 'RA': RA, 'Rx': Rx, 'kw': {'nswp': nswp}}
@@ -58,7 +58,7 @@ def cases(tier, seed):
 
 def opts(tier):
     return {'logic': 'QF_LIA', 'qtimeout_ms': 10000, 'final_timeout_ms': 30000, 'max_paths': 6000 if tier == 'quick' else 40000,
-            'case_timeout_s': 300 if tier == 'quick' else 1800, 'scalar_mode': 'Z',
+            'case_timeout_s': 300 if tier == 'quick' else 1200, 'scalar_mode': 'Z',
             'setup': {'factor_mode': 'havoc', 'fresh': 'havoc', 'select_mode': 'ite'}}
 
 
